@@ -279,10 +279,11 @@ class Model:
     model that contains every conforming float computation; 0 = pure enclosure of the exact real
     value).  widen = relative widening (in u) applied to inexact-looking Constant leaves."""
 
-    def __init__(self, scale=1, widen=0, point_e=False):
+    def __init__(self, scale=1, widen=0, point_e=False, widen_integral=False):
         self.scale = scale
         self.widen = widen
         self.point_e = point_e
+        self.widen_integral = widen_integral
 
     def _ln_e(self):
         """ln of the default base: the hull of the float math.e and the true e (a conforming
@@ -331,7 +332,7 @@ class Model:
             if isinstance(v, bool):
                 v = int(v)
             x = ivnum(v)
-            if self.widen and isinstance(v, float) and not (v.is_integer() and abs(v) < 2 ** 40):
+            if self.widen and isinstance(v, float) and (self.widen_integral or not (v.is_integer() and abs(v) < 2 ** 40)) and v != 0:
                 x = infl(x, self.widen, 1)
                 return Val("def", x, None, False)
             return Val("def", x, Fraction(v), True)
@@ -861,7 +862,7 @@ def _fx(ex, *kids):
 NORMAL = Model(scale=1)
 EXACT = Model(scale=0)
 EXACT_WIDE = Model(scale=0, widen=4)
-NORMAL_WIDE = Model(scale=1, widen=4)   # contains the value of an expression whose folded constants are off by <= 4u, under any conforming float evaluation
+NORMAL_WIDE = Model(scale=1, widen=4, widen_integral=True)   # contains the value of an expression whose folded constants are off by <= 4u, under any conforming float evaluation
 
 
 def slack_interval(d, dabs, mult=16):
